@@ -55,6 +55,10 @@ Section SimpleWire.
     | _ => OReset
     end.
 
+  (* classes 1 and 4: (4 k (f)) is increase_resolution(k, fill_event=f) *)
+  Definition xOpF (s : sx) : option E * op E :=
+    (if xZ (a_ 0 s) =? 4 then match xL (a_ 2 s) with [f] => Some (xE f) | _ => None end else None, xOp s).
+
   Definition oObs (so : st E * outcome) : sx :=
     let s := fst so in
     L [oOutcome (snd so); L (map oE (iter s)); I (start s); I (stop s); I (len s);
@@ -109,7 +113,7 @@ Definition xPfOp (s : sx) : Perf.op :=
   | 1 => Perf.FAppend (xZ (a_ 1 s)) (xZ (a_ 2 s))
   | 2 => Perf.FSetLength (xZ (a_ 1 s)) (xB (a_ 2 s))
   | 8 => Perf.FTruncate (xZ (a_ 1 s))
-  | 6 => Perf.FReinit (xZ (a_ 1 s)) (xZ (a_ 2 s))
+  | 6 => Perf.FReinit (xZ (a_ 1 s)) (xZ (a_ 2 s)) (xZ (a_ 4 s))   (* (6 start max_shift kind nvb ...) *)
   | _ => Perf.FDeepcopy
   end.
 
@@ -123,10 +127,12 @@ Definition run (s : sx) : sx :=
   let init := a_ 1 s in
   let ops := xL (a_ 2 s) in
   match xZ (a_ 0 s) with
-  | 1 => L (map (oObs Z I) (Plain.trace (empty_st (xZ (a_ 0 init))) (map (xOp Z xZ) ops)))
+  | 1 => L (map (oObs Z I) (trace_f None Plain.valid (fun l => l) None no_fix
+                                    (empty_st (xZ (a_ 0 init))) (map (xOpF Z xZ) ops)))
   | 2 => L (map (oObs Z I) (Melody.trace (empty_st MELODY_NO_EVENT) (map (xOp Z xZ) ops)))
   | 3 => L (map (oObs (list Z) oZs) (Drums.trace (empty_st []) (map (xOp (list Z) xDrum) ops)))
-  | 4 => L (map (oObs Z I) (Chords.trace (empty_st NO_CHORD_CODE) (map (xOp Z xZ) ops)))
+  | 4 => L (map (oObs Z I) (trace_f (Some NO_CHORD_CODE) Chords.valid (fun l => l) None no_fix
+                                    (empty_st NO_CHORD_CODE) (map (xOpF Z xZ) ops)))
   | 5 => L (map oLsObs (LeadSheet.trace LeadSheet.empty (map xLsOp ops)))
   | 6 => L (map oPrObs (Pianoroll.trace
                           (Pianoroll.mk [] (xZ (a_ 0 init)) (xZ (a_ 1 init)) (xZ (a_ 2 init)))
